@@ -113,3 +113,70 @@ theorem pcRepeat_ok (inp : List Int) (row na cb : Nat) (hrow : row < 16) (hna : 
     · exact pcRepeat_ok inp row na cb hrow hna c _ hok
 
 end Sf.AlacCore
+
+namespace Sf.AlacCore
+
+theorem foldl_inv {α β : Type} (P : α → Prop) (f : α → β → α) : ∀ (l : List β) (a : α), P a → (∀ a b, b ∈ l → P a → P (f a b)) → P (l.foldl f a)
+  | [], a, h, _ => h
+  | b :: l, a, h, hf => by
+    simp only [List.foldl_cons]
+    exact foldl_inv P f l (f a b) (hf a b (by simp) h) (fun a' b' hb' ha' => hf a' b' (by simp [hb']) ha')
+
+def MixAccOk (a : MixAcc) : Prop := RowsOk a.rowsU ∧ RowsOk a.rowsV ∧ 0 ≤ a.best ∧ a.best ≤ 4
+
+theorem mixStep_ok (depth cb : Nat) (lsd rsd : List Int) (a : MixAcc) (mixRes : Nat) (hm : mixRes ≤ 4) (h : MixAccOk a) :
+    MixAccOk (mixStep depth cb lsd rsd a mixRes) := by
+  obtain ⟨hu, hv, h0, h4⟩ := h
+  unfold mixStep MixAccOk
+  simp only []
+  refine ⟨rows_set_ok _ 7 _ hu (pcBlock_ok _ _ 8 cb 9 (by decide) (rows_getD_ok _ 7 hu (by decide))),
+    rows_set_ok _ 7 _ hv (pcBlock_ok _ _ 8 cb 9 (by decide) (rows_getD_ok _ 7 hv (by decide))), ?_, ?_⟩
+  · split <;> omega
+  · split <;> omega
+
+theorem mixSearch_ok (depth cb : Nat) (st : EncChan) (lsd rsd : List Int) (hu : RowsOk st.coefsU) (hv : RowsOk st.coefsV)
+    (h0 : 0 ≤ st.lastMixRes) (h4 : st.lastMixRes ≤ 4) : MixAccOk (mixSearch depth cb st lsd rsd) := by
+  unfold mixSearch
+  apply foldl_inv MixAccOk
+  · exact ⟨hu, hv, h0, h4⟩
+  · intro a b hb ha
+    exact mixStep_ok depth cb lsd rsd a b (by simp at hb; omega) ha
+
+def TryAccOk (a : TryAcc) : Prop := RowsOk a.rowsU ∧ RowsOk a.rowsV
+
+theorem pairTry_ok (cb numUV n : Nat) (u v su sv : List Int) (rowsU rowsV : List (List Int)) (h1 : 1 ≤ numUV) (h16 : numUV ≤ 16)
+    (hu : RowsOk rowsU) (hv : RowsOk rowsV) :
+    RowsOk (pairTry cb numUV n u v su sv rowsU rowsV).2.2.1 ∧ RowsOk (pairTry cb numUV n u v su sv rowsU rowsV).2.2.2 := by
+  unfold pairTry
+  simp only []
+  have : TryAccOk ((List.range 8).foldl (tryStep cb numUV n u v) ⟨[], rowsU, [], rowsV⟩) := by
+    apply foldl_inv TryAccOk
+    · exact ⟨hu, hv⟩
+    · intro a b _ ha
+      unfold tryStep TryAccOk
+      simp only []
+      exact ⟨rows_set_ok _ _ _ ha.1 (pcBlock_ok _ _ numUV cb 9 h16 (rows_getD_ok _ _ ha.1 (by omega))),
+        rows_set_ok _ _ _ ha.2 (pcBlock_ok _ _ numUV cb 9 h16 (rows_getD_ok _ _ ha.2 (by omega)))⟩
+  exact this
+
+/-- the state of a pair's channel index: both tables and the last mixing ratio -/
+def PairStateOk (st : EncChan) : Prop := RowsOk st.coefsU ∧ RowsOk st.coefsV ∧ 0 ≤ st.lastMixRes ∧ st.lastMixRes ≤ 4
+
+theorem pairSearch_ok (depth : Nat) (st : EncChan) (ls rs : List Int) (h : PairStateOk st) :
+    RowsOk (pairSearch depth st ls rs).rowsU ∧ RowsOk (pairSearch depth st ls rs).rowsV ∧
+    0 ≤ (pairSearch depth st ls rs).bestRes ∧ (pairSearch depth st ls rs).bestRes ≤ 4 ∧
+    ((pairSearch depth st ls rs).numU = 4 ∨ (pairSearch depth st ls rs).numU = 8) ∧
+    ((pairSearch depth st ls rs).numV = 4 ∨ (pairSearch depth st ls rs).numV = 8) := by
+  obtain ⟨hu, hv, h0, h4⟩ := h
+  unfold pairSearch
+  simp only []
+  have hms := mixSearch_ok depth (depth - 8 * bytesShiftedOf depth + 1) st (ls.take (ls.length / 8)) (rs.take (ls.length / 8)) hu hv h0 h4
+  obtain ⟨mu, mv, m0, m4⟩ := hms
+  have t4 := fun (u v su sv : List Int) => pairTry_ok (depth - 8 * bytesShiftedOf depth + 1) 4 ls.length u v su sv _ _ (by decide) (by decide) mu mv
+  have t8 := fun (u v su sv u' v' su' sv' : List Int) => pairTry_ok (depth - 8 * bytesShiftedOf depth + 1) 8 ls.length u' v' su' sv' _ _
+    (by decide) (by decide) (t4 u v su sv).1 (t4 u v su sv).2
+  refine ⟨(t8 _ _ _ _ _ _ _ _).1, (t8 _ _ _ _ _ _ _ _).2, m0, m4, ?_, ?_⟩
+  · split <;> simp
+  · split <;> simp
+
+end Sf.AlacCore
